@@ -326,6 +326,15 @@ fn d28_class(m: &Beatmap) -> bool {
     })
 }
 
+/// D34: an inherited line at -0 in front of an uninherited line at 0: a difficulty or effect point
+/// stored at -0.0 while a timing point is stored at +0.0
+fn d34_class(m: &Beatmap) -> bool {
+    let cp = &m.control_points;
+    let neg_zero = |t: f64| t == 0.0 && t.is_sign_negative();
+    cp.timing_points.iter().any(|p| p.time == 0.0 && p.time.is_sign_positive())
+        && (cp.difficulty_points.iter().any(|p| neg_zero(p.time)) || cp.effect_points.iter().any(|p| neg_zero(p.time)))
+}
+
 /// D31: a slider node that carries a file-name sample (the encoder writes edge sets with banks only)
 fn d31_object(h: &HitObject) -> bool {
     match &h.kind {
@@ -432,15 +441,16 @@ pub fn oracle(text: &str, origin: &str, out: &mut Out) {
         }
     }
     let d28 = d28_class(&m1);
-    let near_cls = if d28 { "D28" } else if d27_class(&m1) { "D27" } else { "" };
+    let d34 = d34_class(&m1);
+    let near_cls = if d34 { "D34" } else if d28 { "D28" } else if d27_class(&m1) { "D27" } else { "" };
     if let Some(t) = sv_bad {
         out.fail(near_cls, &desc, &format!("slider-velocity timeline differs at t={}: {} vs {}", t, sv_at(&m1, t), sv_at(&m2, t)));
     }
     if let Some(t) = kiai_bad {
-        out.fail(if d28 { "D28" } else { "" }, &desc, &format!("kiai timeline differs at t={}: {} vs {}", t, kiai_at(&m1, t), kiai_at(&m2, t)));
+        out.fail(if d34 { "D34" } else if d28 { "D28" } else { "" }, &desc, &format!("kiai timeline differs at t={}: {} vs {}", t, kiai_at(&m1, t), kiai_at(&m2, t)));
     }
     if let Some(t) = scroll_bad {
-        out.fail(if d19 { "D22" } else if d12 { "D12" } else if d28 { "D28" } else { "" }, &desc, &format!("scroll-speed timeline differs at t={}: {} vs {}", t, scroll_at(&m1, t), scroll_at(&m2, t)));
+        out.fail(if d19 { "D22" } else if d12 { "D12" } else if d34 { "D34" } else if d28 { "D28" } else { "" }, &desc, &format!("scroll-speed timeline differs at t={}: {} vs {}", t, scroll_at(&m1, t), scroll_at(&m2, t)));
     }
     // hit objects.  An object whose encoded line is rejected on re-read is lost (C04's
     // business; known for the D2 class): it is reported and left out of the expectation.
@@ -487,6 +497,8 @@ pub fn oracle(text: &str, origin: &str, out: &mut Out) {
                     "D31"
                 } else if d19 && matches!(*n, "curve_path" | "curve_lengths" | "velocity") {
                     "D22"
+                } else if d34 && *n == "velocity" && a.start_time == 0.0 && a.start_time.is_sign_negative() {
+                    "D34"
                 } else if path_item && d13 {
                     "D13"
                 } else if path_item && d17 {
@@ -534,11 +546,62 @@ pub fn mutate_field(r: &mut Rng, text: &str) -> String {
     lines.join("\n") + "\n"
 }
 
+/// small files whose control-point and object times mix -0 and 0 (negative zero never after
+/// positive zero), with and without later ordinary times, in all four modes
+fn signed_zero_texts() -> Vec<String> {
+    let mut v = vec![];
+    let tp_sets: [&[&str]; 8] = [
+        &["-0,500,4,1,0,100,1,0", "0,-50,4,1,0,100,0,0"],
+        &["-0,-50,4,1,0,100,0,0", "0,500,4,1,0,100,1,0"],
+        &["-0,500,4,1,0,100,1,0", "-0,-50,4,1,0,100,0,1", "0,-25,4,2,0,40,0,0"],
+        &["-0,500,4,1,0,100,1,0", "0,400,4,2,0,60,1,1"],
+        &["0,500,4,1,0,100,1,0", "0,-50,4,1,0,100,0,0"],
+        &["-0,500,4,1,0,100,1,0", "0,-50,4,1,0,100,0,0", "1000,-200,4,1,0,100,0,1"],
+        &["-0.0,500,4,1,0,100,1,0", "0.0,-80,4,3,0,70,0,1", "0,300,4,1,0,100,1,0"],
+        &["0,500,4,1,0,100,1,0"],
+    ];
+    let ho_sets: [&[&str]; 5] = [
+        &[],
+        &["256,192,-0,1,0,0:0:0:0:"],
+        &["256,192,-0,1,2,1:2:0:50:", "100,100,0,1,0,0:0:0:0:"],
+        &["256,192,-0,5,0,0:0:0:0:", "300,192,0,12,0,500,0:0:0:0:", "10,10,1000,1,0,0:0:0:0:"],
+        &["100,100,-0,2,0,L|200:100,1,100", "100,100,0,1,0,0:0:0:0:"],
+    ];
+    for mode in 0..4 {
+        for tps in tp_sets {
+            for hos in ho_sets {
+                if mode != 0 && hos.iter().any(|l| l.contains('|')) && mode == 3 {
+                    continue;
+                }
+                let mut t = format!("osu file format v14\n\n[General]\nMode: {mode}\n\n[TimingPoints]\n");
+                for l in tps {
+                    t.push_str(l);
+                    t.push('\n');
+                }
+                t.push_str("\n[HitObjects]\n");
+                for l in hos {
+                    t.push_str(l);
+                    t.push('\n');
+                }
+                v.push(t);
+            }
+        }
+    }
+    v
+}
+
 pub fn generate(tier: &str, seed: u64, out: &mut Out) {
     let mut skipped = 0u64;
     for (o, t) in c04::RECORDED_INPUTS {
         c04::enc_case(t, o, out);
         oracle(t, o, out);
+    }
+    // signed-zero times: timing / inherited lines and objects at -0 and 0, the negative zero first
+    // (chronological numerically and in the total order the control points are kept in)
+    for t in signed_zero_texts() {
+        c04::enc_case(&t, "signed-zero times", out);
+        oracle(&t, "signed-zero times", out);
+        out.count("stream.signed_zero");
     }
     // correspondence: the same files through the `enc` model entry
     c04::texts(tier, seed ^ 0xC02, false, true, |t, o| {
